@@ -369,6 +369,9 @@ def evaluate(prop, results, hangs, st, bound_check=False):
                     m = re.search(r"ev=(\d+) bumps=(\d+)", impl)
                     if m and int(m.group(1)) > bound:
                         findings.append(Finding("O", r, "runaway: %s events > bound %d bumps=%s" % (m.group(1), bound, m.group(2)), run=k))
+            if impl.startswith("API-MISMATCH"):
+                findings.append(Finding("O", r, "api: %s (request %s)" % (impl, req[:60]), run=k))
+                continue
             if (model.startswith("SKIP") or model.startswith("NONFINITE") or impl == "WRONGPROFILE" or impl == "MODELONLY"
                     or (impl.startswith("BADREQ unresolved_reference") and model.startswith("BADREQ"))):
                 st.skipped_runs += 1
